@@ -1333,3 +1333,49 @@ func ruleC05IntegerRange(c *Ctx) {
 	}
 	c.R.Floor(rule, "range tests at the ends of the 32-bit range in the decoder", n, 2)
 }
+
+// (registered in zz_shared.go for C05, C07, C18)
+// A schema document that is the JSON value true or false replaces whatever the receiver held: on every path from the
+// successful decoding of a boolean to the return, the whole receiver is overwritten (`*s = Schema{}` for true as well
+// as the false schema for false). Decoding `true` into a Schema that already has content - a reloaded document, a
+// repeated key - otherwise leaves the old keywords in force.
+func ruleBooleanSchemaOverwrites(c *Ctx, rule string) {
+	fn := c.entry(rule, "(*Schema).UnmarshalJSON")
+	if fn == nil || len(fn.Params) == 0 {
+		return
+	}
+	recv := fn.Params[0]
+	n := 0
+	core.EachInstr(fn, func(i ssa.Instruction) {
+		call, ok := i.(*ssa.Call)
+		if !ok || core.CalleeKey(&call.Call) != "encoding/json.Unmarshal" {
+			return
+		}
+		dst := peelIface(call.Call.Args[1])
+		et, isPtr := isPtrTo(dst.Type())
+		if !isPtr || !isBoolType(et) {
+			return
+		}
+		sb := successBlock(call)
+		if sb == nil {
+			return
+		}
+		n++
+		through := map[*ssa.BasicBlock]bool{}
+		targets := map[*ssa.BasicBlock]bool{}
+		for _, b := range fn.Blocks {
+			for _, ins := range b.Instrs {
+				if st, ok := ins.(*ssa.Store); ok && st.Addr == ssa.Value(recv) {
+					through[b] = true
+				}
+			}
+			if _, isRet := b.Instrs[len(b.Instrs)-1].(*ssa.Return); isRet && (b == sb || core.Reachable(sb, b, nil)) {
+				targets[b] = true
+			}
+		}
+		okAll := len(through) > 0 && mustPass(sb, through, targets)
+		c.R.Check(okAll, rule, "boolean-document:receiver-overwritten", c.pos(call), "a boolean schema document overwrites the whole receiver, for true and for false",
+			"a document that is the JSON value true (or false) can be decoded without the receiver being overwritten: a Schema that already holds keywords (a reloaded document, the second of two equal keys) keeps them, so `true` still rejects, or still marks properties as evaluated")
+	})
+	c.R.Floor(rule, "decodings of the document as a boolean", n, 1)
+}
